@@ -184,6 +184,9 @@ impl LangInterpreter for French {
                 b.marker = marker;
                 b.freeze();
             }
+        } else if matches!(status, Err(Error::Incomplete)) && blocked.contains(Excludable::UN_SIX) {
+            // "et" after "dix": un…six stay blocked ("dix et un" is not eleven)
+            b.flags = blocked.bits();
         } else {
             b.flags = 0
         }
